@@ -52,13 +52,24 @@ def dtype_sort(dt):
         return z3.IntSort()
     if dt == "b":
         return z3.BoolSort()
+    if dt == "r":
+        return z3.RealSort()
     if dt.startswith("u"):
         return z3.BitVecSort(int(dt[1:]))
     raise ValueError(dt)
 
 
 def fresh_array_term(base, nd, sort):
+    """z3 multi-index arrays; the cvc5 export rewrites them into nested SMT-LIB arrays (pv.solve.nest_arrays)"""
     return _log(z3.Array(fresh_name(base), *([I] * nd), sort))
+
+
+def sel(a, idx):
+    return z3.Select(a, *[i if z3.is_expr(i) else z3.IntVal(i) for i in idx])
+
+
+def sto(a, idx, v):
+    return z3.Store(a, *([i if z3.is_expr(i) else z3.IntVal(i) for i in idx] + [v]))
 
 
 class SArr:
@@ -135,7 +146,7 @@ def interned_strings():
     return dict(_interned)
 
 
-_ARR_RE = re.compile(r"^(f32|f64|f|i16|i32|i64|i|u16|u32|u8|bool)\[(.*)\]$")
+_ARR_RE = re.compile(r"^(f32|f64|f|r32|r64|i16|i32|i64|i|u16|u32|u8|bool)\[(.*)\]$")
 
 
 def parse_type(t):
@@ -154,6 +165,6 @@ def parse_type(t):
         if base in ("f32", "f64", "f") and dims.strip().isdigit():
             return ("flist", int(dims))
         nd = dims.count(":")
-        dt = "f" if base[0] == "f" else "b" if base == "bool" else base if base in ("u16", "u32") else "i"
+        dt = "f" if base[0] == "f" else "r" if base[0] == "r" else "b" if base == "bool" else base if base in ("u16", "u32") else "i"
         return ("arr", dt, nd, base)
     raise ValueError("bad type " + repr(t))
